@@ -862,6 +862,7 @@ def deps(an, fn, expr, exclude_state=(), at=None):
     (reaching_def) takes the dependencies of that definition only."""
     params = fn.all_params
     dep = {p: {p} for p in params}
+    mutdep = {}            # what flows INTO the object a local names by mutation (x[k] = v, x.append(v), x += v): survives any rebinding analysis
 
     def of(e):
         d = set()
@@ -900,6 +901,7 @@ def deps(an, fn, expr, exclude_state=(), at=None):
                     for a in n.args:
                         d |= of(a)
                     dep[b.id] = dep.get(b.id, set()) | d
+                    mutdep[b.id] = mutdep.get(b.id, set()) | d
                 continue
             if val is None:
                 continue
@@ -909,12 +911,15 @@ def deps(an, fn, expr, exclude_state=(), at=None):
                 for e in elts:
                     b = e.value if isinstance(e, ast.Starred) else e
                     extra = set()
+                    through = isinstance(b, (ast.Subscript, ast.Attribute)) or isinstance(n, ast.AugAssign)
                     while isinstance(b, (ast.Subscript, ast.Attribute)):
                         if isinstance(b, ast.Subscript):
                             extra |= of(b.slice)
                         b = b.value
                     if isinstance(b, ast.Name):
                         dep[b.id] = dep.get(b.id, set()) | d | extra
+                        if through:
+                            mutdep[b.id] = mutdep.get(b.id, set()) | d | extra
     def of_at(e, where, depth=0):
         if where is None or depth > 6:
             return of(e)
@@ -930,7 +935,7 @@ def deps(an, fn, expr, exclude_state=(), at=None):
                     val, stmt = rd
                     if isinstance(val, tuple):
                         val = val[2]
-                    d |= of_at(val, stmt, depth + 1)
+                    d |= of_at(val, stmt, depth + 1) | mutdep.get(x.id, set())
                 continue
             if isinstance(x, ast.Name) or isinstance(x, ast.Call):
                 d |= of(x) if isinstance(x, ast.Name) else {"state:" + s_ for k_ in [an.resolve_call(fn, x)] if k_ is not None for s_ in an.fns[k_].reads}
